@@ -342,6 +342,8 @@ fn a_random_strategy(max_n: usize) -> impl Strategy<Value = ACase> {
 
 fn leaf_value(tag: u64, i: usize) -> MKTreeNode {
     // application-like leaves: ASCII strings (as transaction hashes / file digests are)
+    // tags >= 100 give lists with repeated leaf values (period tag-99), e.g. equal file digests
+    let i = if tag >= 100 { i % (tag as usize - 99) } else { i };
     MKTreeNode::from(format!("leaf-{tag}-{i:04}"))
 }
 
@@ -738,6 +740,9 @@ fn b_case(c: &BCase) -> Report {
             }
             if muts.is_empty() {
                 rep.label("B:honest-verified");
+                if c.tag >= 100 {
+                    rep.label("B:honest-verified-repeated-leaves");
+                }
                 return rep;
             }
             let mut v = serde_json::to_value(&honest).unwrap();
@@ -1118,6 +1123,7 @@ pub fn run(args: &Args) -> i32 {
         .require_label("A:mutated-rejected")
         .require_label("A:mut:IndexTo")
         .require_label("B:honest-verified")
+        .require_label("B:honest-verified-repeated-leaves")
         .require_label("B:mutated-rejected")
         .require_label("B:mut:ReplaceLeaf:Internal")
         .require_label("B:mut:SetSize")
@@ -1168,6 +1174,14 @@ pub fn run(args: &Args) -> i32 {
             {
                 let _ = k;
                 b_items.push(BCase { n, tag: 0, subset: vec![], mask: Some(mask), kind: BKind::Mutate(vec![m]) });
+            }
+        }
+    }
+    // committed lists with repeated leaf values: every selection must still produce a verifying proof
+    for n in 2..=7usize {
+        for period in 1..=3u64 {
+            for mask in 1u64..(1u64 << n) {
+                b_items.push(BCase { n, tag: 99 + period, subset: vec![], mask: Some(mask), kind: BKind::Mutate(vec![]) });
             }
         }
     }
